@@ -1,5 +1,6 @@
 import IrVerif.Drive.Util
 import IrVerif.Model.Serde
+import IrVerif.Model.SerdeWide
 /-! Protocol handler for the serde model (C02; also usable by C03/C17).
 Requests `{"m": "serde.<kind>", "x": <proto as JSON>, ...}`; answers
 `{"ok": bool, "r": <serialize (deserialize x)>, "err": kind, "wf": WFproto x, "norm": norm x}`.
@@ -249,6 +250,27 @@ def answer (res : Except Err Json) (wf : Bool) (nrm : Json) : Json :=
   obj [("ok", Json.bool ok), ("r", r), ("err", jS err), ("wf", Json.bool wf), ("norm", nrm),
        ("thm", Json.bool (!wf || (ok && r == nrm)))]
 
+/-- the same plus the widened domain of the deepening round: `wfw` = WFproto (fold x), `normw` =
+norm (fold x), `thmw` = (wfw -> res = ok normw) (the statement of `C02_*_wide` on this input),
+`sub` = (wf -> fold x = x, i.e. normw = norm) (`C02_wide_subsumes`), `unread` = (deserialize (fold x) =
+deserialize x, observed through serialize) (`C02_fold_unread*`) -/
+def answerW (res : Except Err Json) (wf : Bool) (nrm : Json) (wfw : Bool) (nrmw : Json)
+    (resFold : Except Err Json) (wfx : Bool := wfw) (nrmx : Json := nrmw) : Json :=
+  let (ok, r, err) := match res with
+    | .ok r => (true, r, "")
+    | .error e => (false, Json.null, e)
+  let unread := match res, resFold with
+    | .ok a, .ok b => a == b
+    | .error _, .error _ => true
+    | _, _ => false
+  obj [("ok", Json.bool ok), ("r", r), ("err", jS err), ("wf", Json.bool wf), ("norm", nrm),
+       ("thm", Json.bool (!wf || (ok && r == nrm))),
+       ("wfw", Json.bool wfw), ("normw", nrmw), ("thmw", Json.bool (!wfw || (ok && r == nrmw))),
+       ("sub", Json.bool (!wf || (wfw && nrmw == nrm))), ("unread", Json.bool unread),
+       -- stage E: canon = merge (fold x); `thmx` = statement of `C02_*_canon`, `subx` = `C02_canon_subsumes`
+       ("wfx", Json.bool wfx), ("normx", nrmx), ("thmx", Json.bool (!wfx || (ok && r == nrmx))),
+       ("subx", Json.bool (!wfw || (wfx && nrmx == nrmw)))]
+
 def optVer (j : Json) : Option Int :=
   match j.getObjValAs? Int "ver" with
   | .ok v => some v
@@ -284,7 +306,19 @@ def handle : Handler := fun m j =>
     let res := do
       let x ← desTensor t
       pure (eTensor (serTensor x))
-    return answer res (wfTensor t) (eTensor (normTensor t))
+    let resFold := do
+      let x ← desTensor (foldTensor t)
+      pure (eTensor (serTensor x))
+    -- `rf` = serialize_tensor_into written out field by field; `fields` = tensorFieldsKept rf x
+    -- (the statement of `C02_tensor_fields`)
+    let rf := match desTensor t with
+      | .ok x => eTensor (serTensorF x)
+      | .error _ => Json.null
+    let fields := match desTensor t with
+      | .ok x => tensorFieldsKept (serTensorF x) t
+      | .error _ => false
+    return (answerW res (wfTensor t) (eTensor (normTensor t)) (wfTensorW t) (eTensor (normTensorW t)) resFold).mergeObj
+      (obj [("rf", rf), ("fields", Json.bool (!wfTensorW t || fields))])
   | "serde.attr" => some do
     let a ← dAttr (← field j "x")
     let scopes ← scopesOf j
@@ -306,7 +340,12 @@ def handle : Handler := fun m j =>
       let x ← desGraph [] g
       let y ← serGraph [] (optVer j) x
       pure (eGraph y)
-    return answer res (wfGraph [] g) (eGraph (normGraph g))
+    let resFold := do
+      let x ← desGraph [] (foldGraph g)
+      let y ← serGraph [] (optVer j) x
+      pure (eGraph y)
+    return answerW res (wfGraph [] g) (eGraph (normGraph g)) (wfGraphW [] g) (eGraph (normGraphW g)) resFold
+      (wfGraphX [] g) (eGraph (normGraphX g))
   | "serde.wfgraph" => some do
     -- development aid: the conjuncts of wfGraph for the top-level graph
     match ← dGraph (← field j "x") with
@@ -347,14 +386,26 @@ def handle : Handler := fun m j =>
       let x ← desFunction f
       let y ← serFunction (optVer j) true x
       pure (eFunction y)
-    return answer res (wfFunctionAlone f) (eFunction (normFunction true f))
+    let resFold := do
+      let x ← desFunction (foldFunction f)
+      let y ← serFunction (optVer j) true x
+      pure (eFunction y)
+    return answerW res (wfFunctionAlone f) (eFunction (normFunction true f)) (wfFunctionAloneW f)
+      (eFunction (normFunctionW true f)) resFold (wfFunctionAloneX f) (eFunction (normFunctionX true f))
   | "serde.model" => some do
     let mdl ← dModel (← field j "x")
     let res := do
       let x ← desModel mdl
       let y ← serModel x
       pure (eModel y)
-    return answer res (wfModel mdl) (eModel (normModel mdl))
+    let resFold :=
+      if mdl.irVersion ≥ 10 || inputsPlain mdl.graph then do
+        let x ← desModel (foldModel mdl)
+        let y ← serModel x
+        pure (eModel y)
+      else res
+    return answerW res (wfModel mdl) (eModel (normModel mdl)) (wfModelW mdl) (eModel (normModelW mdl)) resFold
+      (wfModelX mdl) (eModel (normModelX mdl))
   | _ => none
 
 end IrVerif.Drive.Serde
